@@ -525,9 +525,42 @@ def single_chunk_rules(m, lf, run, which, key, body, static_off, vtrak, moov, ha
         run.check(good, "R3", key + " samples-per-chunk", "samples_per_chunk = len(video queue)", "stsc samples_per_chunk is not the number of queued video samples")
 
 
+def api_passthrough(cx, run, R="R6"):
+    """the public write entry points hand the writer the call's own payload slice and key flag: every argument of a call to a writer
+    `write_*_sample*` method that binds the callee's `data` / `is_keyframe` parameter is the same-named parameter of the entry point itself"""
+    from .. import sym
+    u = cx.u
+    n = 0
+    for p, b in sorted(cx.live.items()):
+        if not (b.get("impl_self", "").startswith("api::Muxer") and b.get("reachable_pub") and b.get("kind") != "Closure"):
+            continue
+        names = {i: mir.debug_name(b, i) for i in range(1, b["argc"] + 1)}
+        if "data" not in names.values():
+            continue
+        for bb, t, name, info in mir.calls(b):
+            cb = u.bodies.get(name) if name else None
+            if cb is None or "Mp4Writer" not in cb.get("impl_self", "") or "_sample" not in name.rsplit("::", 1)[-1]:
+                continue
+            for k, a in enumerate(t["args"]):
+                role = mir.debug_name(cb, k + 1)
+                if role not in ("data", "is_keyframe"):
+                    continue
+                e = sym.expr(b, a)
+                while e[0] in ("ref", "copy") or (e[0] == "call" and e[1].endswith("Deref::deref") and len(e[2]) == 1):
+                    e = e[1] if e[0] != "call" else e[2][0]
+                src = e[1] if e[0] == "arg" else (int(str(e[1])[3:]) if e[0] in ("load", "refplace") and str(e[1]).startswith("arg") and str(e[1])[3:].isdigit() else None)
+                n += 1
+                run.check(src is not None and names.get(src) == role, R, "%s passes its own `%s` to %s" % (p.rsplit("::", 1)[-1], role, name.rsplit("::", 1)[-1]),
+                          "argument = parameter `%s`" % role,
+                          "%s hands the writer `%s` as `%s`, not the submitted `%s` itself: the stored %s is no longer the one submitted" % (
+                              p.rsplit("::", 1)[-1], sym.show(e)[:120], role, role, "sync flag" if role == "is_keyframe" else "payload"), mir.loc_of(t))
+    run.floor(R, n, 5, "payload / key-flag arguments handed to the writer by the public entry points")
+
+
 def r6(m, run):
     cx, it = m.cx, m.it
     u = cx.u
+    api_passthrough(cx, run)
     for q, kind in ((m.vq, "video"), (m.aq, "audio")):
         w = m.writer_of[q]
         if w is None or w not in u.hir:
